@@ -131,7 +131,7 @@ let () =
                    incr dumps;
                    (match live_model with
                     | Some h when !in_sync && res <> "?" && res <> "skip" ->
-                      let m = if k = "DUMP" then dump_heap h else "t" in
+                      let m = if k = "DUMP" then dump_heap h else if h_verify cmp h then "t" else "f" in
                       if res <> m then begin
                         mism "fidelity" (Printf.sprintf "implementation %s, model %s" res m);
                         in_sync := false
